@@ -277,6 +277,8 @@ def _rand_idx0(rng, n):
 def _spec_len(prog, lens):
     """length of the result per the specification (None = error)"""
     if "t" in prog:
+        if "part" in prog:
+            return prog["plens"][prog["part"]]
         return lens[prog["t"]]
     if "cat" in prog:
         a, b = (_spec_len(p, lens) for p in prog["cat"])
@@ -287,6 +289,8 @@ def _spec_len(prog, lens):
         return _spec_len(prog["touch"], lens)
     if "get" in prog:
         return _spec_len(prog["get"], lens)
+    if "set" in prog:
+        return _spec_len(prog["set"], lens)
     if "seq" in prog:
         a, b = (_spec_len(q, lens) for q in prog["seq"])
         return None if a is None else b
@@ -378,6 +382,8 @@ def make_case(rng, fmt, depth, replace_p=0.3, eol=None):
     if rep and n and rng.random() < replace_p:
         ks = sorted(rng.sample(sorted(rep), rng.choice([1, 1, 2, min(3, len(rep)), len(rep)])))
         c["repl"] = [[k, rep[k], _new_values(rng, rep[k], n)] for k in ks]
+    if rng.random() < 0.12:
+        c = _nofinal(c)
     return _set_op(c)
 
 
@@ -390,6 +396,20 @@ def _readable(fmt):
     if fmt == "vcfi":
         return sorted(FORMATS[fmt][3]) + [7]     # the nested INFO table is read (cached) too
     return sorted(FORMATS[fmt][3])
+
+
+def _nofinal(c):
+    """the same case on files WITHOUT a terminating newline: the last line of every table has no line terminator in the file
+    (not even the CR of a CRLF file); the reader appends a bare "\n", which is what the last record then ends with"""
+    if c["fmt"] == "bam":
+        return c
+    c = dict(c, recs=[[dict(r) for r in t] for t in c["recs"]], nofinal=True)
+    for t in c["recs"]:
+        if t:
+            last = t[-1]
+            raw = last["raw"]
+            last["raw"] = (raw[:-len(c["eol"])] if raw.endswith(c["eol"]) else raw.rstrip("\r\n")) + "\n"
+    return c
 
 
 def _equal_size_case(rng, fmt, eol, n):
@@ -418,7 +438,7 @@ def _has_cat(p):
         return True
     if "seq" in p:
         return _has_cat(p["seq"][1])
-    return _has_cat(p.get("touch") or p.get("get") or p.get("sel"))
+    return _has_cat(p.get("touch") or p.get("get") or p.get("set") or p.get("sel"))
 
 
 def _has_rep(p):
@@ -428,9 +448,48 @@ def _has_rep(p):
         return True
     if "cat" in p:
         return any(_has_rep(q) for q in p["cat"])
+    if "set" in p:
+        return True
     if "seq" in p:
         return any(_has_rep(q) for q in p["seq"])
     return _has_rep(p.get("touch") or p.get("get") or p.get("sel"))
+
+
+def _apply_sets(p):
+    """attribute assignment (`set`) mutates a SHARED leaf object: rewrite `seq [set(leaf, kw), main]` so that every later use of
+    that same leaf in `main` sees the assigned columns (as a replacement) and every other leaf is untouched"""
+    if "seq" in p:
+        side, main = p["seq"]
+        main = _apply_sets(main)
+        if "set" in side and "t" in side["set"]:
+            leaf = side["set"]
+
+            def sub(q):
+                if q == leaf:
+                    return {"rep": leaf, "kw": side["kw"]}
+                if "t" in q or "catall" in q:
+                    return q
+                if "cat" in q:
+                    return dict(q, cat=[sub(x) for x in q["cat"]])
+                if "seq" in q:
+                    return dict(q, seq=[sub(x) for x in q["seq"]])
+                for key in ("sel", "touch", "get", "rep", "set"):
+                    if key in q:
+                        return dict(q, **{key: sub(q[key])})
+                return q
+            return {"seq": [leaf, sub(main)]}
+        return {"seq": [_apply_sets(side), main]}
+    if "set" in p:
+        return {"rep": _apply_sets(p["set"]), "kw": p["kw"]}
+    if "t" in p or "catall" in p:
+        return p
+    if "cat" in p:
+        return dict(p, cat=[_apply_sets(x) for x in p["cat"]])
+    for key in ("sel", "touch", "get", "rep"):
+        if key in p:
+            return dict(p, **{key: _apply_sets(p[key])})
+    return p
+
 
 
 def _set_op(c):
@@ -465,6 +524,24 @@ def cases(tier, rng):
             for k in rep:
                 yield dict(base, prog={"sel": {"t": 0}, "ix": {"slice": [None, None, -1]}},
                            repl=[[k, rep[k], _new_values(rng, rep[k], n0)]])
+            # files without a terminating newline (LF and CRLF): whole table, selections containing the last record, replaced writes
+            variants = [_nofinal(base)]
+            if fmt == "sam":
+                # the last line has NO optional tags: its last column is a regular field (quality)
+                b2 = dict(base, recs=[[dict(r) for r in t] for t in base["recs"]])
+                last = b2["recs"][0][-1]
+                last["raw"] = "\t".join(last["raw"].rstrip("\r\n").split("\t")[:11]) + eol
+                last["fields"] = list(last["fields"][:11]) + [""]
+                variants += [b2, _nofinal(b2)]
+            for nf in variants:
+              for p in [{"t": 0}, {"sel": {"t": 0}, "ix": {"slice": [None, None, -1]}}, {"sel": {"t": 0}, "ix": {"ints": [n0 - 1, 0, n0 - 1]}},
+                      {"t": 0, "chunk": 1}]:
+                  if fmt == "bam" and "chunk" in p:
+                      continue
+                  yield _set_op(dict(nf, prog=p))
+                  for k in rep:
+                      n = _spec_len(p, [len(t) for t in nf["recs"]])
+                      yield _set_op(dict(nf, prog=p, repl=[[k, rep[k], _new_values(rng, rep[k], n)]]))
     # 0b. two-step selections on a 7-record table of every format: a plain slice right after a non-contiguous selection,
     #     with no write in between (d[::2][1:3], d[mask][:3], d[[4,0,2,6]][1:]), then written / concatenated / replaced
     for fmt in fmts:
@@ -567,6 +644,43 @@ def cases(tier, rng):
                 if ks and n:
                     k = rng.choice(ks)
                     yield _set_op(dict(base, prog=pr, wfmt=wf, repl=[[k, rep[k], _new_values(rng, rep[k], n)]]))
+    # 0e. SEVERAL objects handed out by ONE reader (chunks of one file), one of them modified IN PLACE by attribute assignment:
+    #     every other chunk - never modified - must still write its own original bytes (and read its own columns); the
+    #     modified chunk itself writes the assigned column; both kinds side by side in one concatenation
+    for fmt in fmts:
+        if fmt in ("bam", "gtf"):
+            continue
+        rep = FORMATS[fmt][3]
+        for eol in ("\n", "\r\n"):
+            base = make_case(rng, fmt, 0, 0, eol)
+            while len(base["recs"][0]) < 8:
+                base["recs"][0] = (base["recs"][0] + make_case(rng, fmt, 0, 0, eol)["recs"][0])[:8]
+            if fmt in ("vcf", "vcfg", "vcfi") and len({r["raw"].count("\t") for r in base["recs"][0]}) != 1:
+                base["recs"][0] = [base["recs"][0][i % 2] if base["recs"][0][0]["raw"].count("\t") == base["recs"][0][1]["raw"].count("\t")
+                                   else base["recs"][0][0] for i in range(8)]
+            total = sum(len(r["raw"]) for r in base["recs"][0])
+            for size in (len(_header(base)) + total // 2, max(1, total // 4)):
+                plens = _chunk_parts(base, 0, size)
+                if not plens or len(plens) < 2 or sum(plens) != 8 or 0 in plens:
+                    continue
+                P = lambda i: {"t": 0, "part": i, "psize": size, "plens": plens}
+                last = len(plens) - 1
+                rd = _readable(fmt)
+                for k in rng.sample(sorted(rep), min(2, len(rep))):
+                    S = lambda i: {"set": P(i), "kw": [[k, rep[k], _new_values(rng, rep[k], plens[i])]]}
+                    progs = [{"seq": [S(0), P(1)]}, {"seq": [S(0), P(last)]}, {"seq": [S(last), P(0)]}, {"seq": [S(1), P(0)]},
+                             {"seq": [S(0), {"sel": P(1), "ix": {"slice": [None, None, -1]}}]},
+                             {"seq": [S(0), {"get": P(1), "fs": [k] if k in rd else rd[:1]}]},
+                             {"seq": [S(0), {"seq": [{"get": P(1), "fs": [k] if k in rd else rd[:1]}, P(0)]}]},
+                             {"seq": [S(0), P(0)]}, {"seq": [S(1), {"sel": P(1), "ix": {"ints": [plens[1] - 1, 0]}}]},
+                             {"seq": [S(0), {"cat": [P(1), P(0)]}]}, {"seq": [S(last), {"cat": [P(i) for i in range(len(plens))]}]},
+                             {"seq": [{"seq": [S(0), S(1)]}, P(last)]} if last >= 2 else {"seq": [S(1), {"cat": [P(0), P(0)]}]},
+                             {"cat": [P(i) for i in range(len(plens))]}, P(1), {"sel": P(last), "ix": {"slice": [None, None, -1]}}]
+                    for pr in progs:
+                        yield _set_op(dict(base, prog=pr))
+                    pr = {"seq": [S(0), P(1)]}
+                    k2 = rng.choice(sorted(rep))
+                    yield _set_op(dict(base, prog=pr, repl=[[k2, rep[k2], _new_values(rng, rep[k2], plens[1])]]))
     # 1. random programs
     for fmt in fmts:
         m = per if fmt not in ("gtf", "bam") else per // 3
@@ -599,6 +713,8 @@ def _steps(p):
         return 1 + _steps(p["touch"])
     if "get" in p:
         return 1 + _steps(p["get"])
+    if "set" in p:
+        return 1 + _steps(p["set"])
     if "seq" in p:
         return 1 + sum(_steps(q) for q in p["seq"])
     if "rep" in p:
@@ -638,6 +754,9 @@ def _py_index(l, ix):
 
 def _spec_eval(p, tabs):
     if "t" in p:
+        if "part" in p:
+            off = sum(p["plens"][:p["part"]])
+            return list(tabs[p["t"]][off:off + p["plens"][p["part"]]])
         return list(tabs[p["t"]])
     if "cat" in p:
         a, b = (_spec_eval(q, tabs) for q in p["cat"])
@@ -648,6 +767,8 @@ def _spec_eval(p, tabs):
         return _spec_eval(p["touch"], tabs)
     if "get" in p:
         return _spec_eval(p["get"], tabs)
+    if "set" in p:
+        return _spec_eval(p["set"], tabs)
     if "seq" in p:
         return None if _spec_eval(p["seq"][0], tabs) is None else _spec_eval(p["seq"][1], tabs)
     if "rep" in p:
@@ -668,7 +789,8 @@ def _field_eval(p, c):
     nF = FORMATS[fmt][2]
     kinds = FORMATS[fmt][3]
     if "t" in p:
-        return [list(r["fields"][:nF]) for r in c["recs"][p["t"]]], set()
+        rows = _spec_eval(p, c["recs"])
+        return [list(r["fields"][:nF]) for r in rows], set()
     if "catall" in p:
         return [list(r["fields"][:nF]) for t in c["recs"][:p["catall"]] for r in t], set()
     if "cat" in p:
@@ -729,16 +851,17 @@ def _fmt_new(kind, v):
 def oracle(c):
     if c["fmt"] == "sam" and c["eol"] == "\r\n":
         pass  # in the domain: every well-formed file; the implementation cannot read it at all (finding)
-    rs = _spec_eval(c["prog"], c["recs"])
+    prog = _apply_sets(c["prog"])
+    rs = _spec_eval(prog, c["recs"])
     if rs is None:
         return {"err": "index"}
     wf = c.get("wfmt")
-    if not c["repl"] and not _has_cat(c["prog"]) and (not wf or WRITERS[wf][2] is None):
+    if not c["repl"] and not _has_cat(prog) and (not wf or WRITERS[wf][2] is None):
         out = _header(c) + "".join(r["raw"] for r in rs)
         return {"out": out.encode("latin-1").hex() if c["fmt"] == "bam" else out}
     nF = FORMATS[c["fmt"]][2]
-    if _has_rep(c["prog"]):
-        base = [list(r) for r in _field_eval(c["prog"], c)[0]]
+    if _has_rep(prog):
+        base = [list(r) for r in _field_eval(prog, c)[0]]
     else:
         base = [list(r["fields"][:nF]) for r in rs]
     rows = []
@@ -811,6 +934,8 @@ def _write_tables(c):
     for i, t in enumerate(c["recs"]):
         p = os.path.join(d, f"t{i}{suffix}")
         data = (h + "".join(r["raw"] for r in t)).encode("latin-1")
+        if c.get("nofinal") and t and c["fmt"] != "bam":
+            data = data[:-1]        # the file ends right after its last character: the reader supplies the missing "\n"
         if c["fmt"] == "bam":
             with gzip.open(p, "wb") as f:
                 f.write(data)
@@ -847,6 +972,19 @@ def _run(p, paths, bt, bnp, scratch):
     if "t" in p:
         # every table is read ONCE per case: all uses of leaf k are the same Python object (a parent stays alive while its
         # children are written, and is used again afterwards)
+        if "part" in p:
+            # all chunks of table k are handed out by ONE reader (objects of the same lazy class, sharing the reader's state)
+            key = (p["t"], "parts", p["psize"])
+            if key not in _LEAVES:
+                f = bnp.open(paths[p["t"]], buffer_type=bt)
+                chunks = []
+                for _ in range(len(p["plens"]) + 1):
+                    ch = f.read_chunk(min_chunk_size=p["psize"])
+                    if len(ch) == 0:
+                        break
+                    chunks.append(ch)
+                _LEAVES[key] = chunks
+            return _LEAVES[key][p["part"]]
         key = (p["t"], p.get("chunk"))
         if key not in _LEAVES:
             f = bnp.open(paths[p["t"]], buffer_type=bt)
@@ -858,6 +996,12 @@ def _run(p, paths, bt, bnp, scratch):
     if "seq" in p:
         _run(p["seq"][0], paths, bt, bnp, scratch)
         return _run(p["seq"][1], paths, bt, bnp, scratch)
+    if "set" in p:
+        t = _run(p["set"], paths, bt, bnp, scratch)
+        names = FIELD_NAMES[_FMT_OF[id(paths)]]
+        for k, kind, vals in p["kw"]:
+            setattr(t, names[k], _new_column(kind, vals))      # in place: the object is shared with every other use of the leaf
+        return t
     if "get" in p:
         t = _run(p["get"], paths, bt, bnp, scratch)
         names = FIELD_NAMES[_FMT_OF[id(paths)]]
